@@ -454,6 +454,20 @@ func (g *gen) expr(e ast.Expr, en *env) string {
 				if bt, ok := g.typeOf(x).Underlying().(*types.Basic); ok && bt.Info()&types.IsInteger != 0 && !u8 && !wideInt(bt) {
 					g.die(x, "arithmetic on %s is not modelled", bt.Name())
 				}
+				if !u8 && (x.Op == token.MUL || x.Op == token.ADD || x.Op == token.SHL) {
+					// 64-bit results are assumed not to overflow: only plausible for small operands — a large constant factor,
+					// or a product of two run-time values, is refused
+					cx, cy := g.constInt(x.X), g.constInt(x.Y)
+					if (cx != nil && *cx >= 1<<31) || (cy != nil && *cy >= 1<<31) {
+						g.die(x, "64-bit arithmetic with a constant >= 2^31 may overflow: not modelled")
+					}
+					if x.Op == token.MUL && cx == nil && cy == nil {
+						g.die(x, "product of two run-time 64-bit integers may overflow: not modelled")
+					}
+					if x.Op == token.SHL && (cy == nil || *cy >= 32) {
+						g.die(x, "left shift of a 64-bit integer by a run-time or large count may overflow: not modelled")
+					}
+				}
 				if x.Op == token.SUB && !u8 {
 					g.die(x, "subtraction on a non-uint8 integer may go negative: not modelled")
 				}
@@ -627,7 +641,22 @@ func hasControl(ss []ast.Stmt) bool {
 			case *ast.ReturnStmt, *ast.BranchStmt:
 				found = true
 			case *ast.RangeStmt, *ast.ForStmt:
-				return false // control inside nested loops is theirs (return inside nested loop still counts, handled by Ctl)
+				// break/continue inside a nested loop are that loop's own; a `return` (or panic) inside it still leaves the
+				// enclosing statement, so the enclosing `if` must be translated in duplication mode
+				ast.Inspect(x, func(m ast.Node) bool {
+					switch y := m.(type) {
+					case *ast.FuncLit:
+						return false
+					case *ast.ReturnStmt:
+						found = true
+					case *ast.CallExpr:
+						if id, ok := y.Fun.(*ast.Ident); ok && id.Name == "panic" {
+							found = true
+						}
+					}
+					return true
+				})
+				return false
 			case *ast.CallExpr:
 				if id, ok := x.Fun.(*ast.Ident); ok && id.Name == "panic" {
 					found = true
@@ -1184,6 +1213,25 @@ func (g *gen) precheck(name string, fd *ast.FuncDecl, tableMode bool) {
 			}
 		}
 	}
+	// (a') two Go names that become ONE Lean name: reserved words are renamed (`e` -> `e_`), struct fields are bare names
+	// (`u0` …) in mutators — a local called `e_` or `u8` would silently merge with them
+	leanSeen := map[string]types.Object{}
+	for _, f := range g.fields {
+		leanSeen[f] = nil
+	}
+	for nm, objs := range byName {
+		ln := leanName(nm)
+		if prev, ok := leanSeen[ln]; ok && (prev == nil || prev.Name() != nm) {
+			g.die(fd, "%s: the name %q collides with %q in the generated text", name, nm, ln)
+		}
+		leanSeen[ln] = objs[0]
+		if ln != nm {
+			// the renamed form must not be a declared name either
+			if _, clash := byName[ln]; clash {
+				g.die(fd, "%s: the names %q and %q collide in the generated text", name, nm, ln)
+			}
+		}
+	}
 	params := map[types.Object]bool{}
 	if fd.Type.Params != nil {
 		for _, f := range fd.Type.Params.List {
@@ -1257,6 +1305,23 @@ func (g *gen) precheck(name string, fd *ast.FuncDecl, tableMode bool) {
 					if !isArg {
 						g.die(x, "address-of outside a call argument (a local pointer alias) is not modelled")
 					}
+					// the callee may write through the pointer: that is only carried back for a call that is a statement of its
+					// own (`f(&b, …)`), or harmless when the callee takes the object itself read-only (`lenVec(&cvss20)`: a callee
+					// that assigns through it is refused when it is translated)
+					_, stmtLevel := parent[call].(*ast.ExprStmt)
+					objCallee := false
+					if id, ok := call.Fun.(*ast.Ident); ok && g.ptrParam[id.Name] && call.Args[0] == ast.Expr(x) {
+						objCallee = true
+					}
+					if c2, ok := call.Fun.(*ast.Ident); ok && c2.Name == "Pointer" {
+						objCallee = true
+					}
+					if sel, ok := call.Fun.(*ast.SelectorExpr); ok && sel.Sel.Name == "Pointer" {
+						objCallee = true // unsafe.Pointer(&b) inside the one string idiom (checked at the dereference)
+					}
+					if !stmtLevel && !objCallee {
+						g.die(x, "a pointer is passed to a call whose result is used: writes through it would be lost — not modelled")
+					}
 				}
 			}
 		case *ast.StarExpr:
@@ -1284,6 +1349,22 @@ func (g *gen) precheck(name string, fd *ast.FuncDecl, tableMode bool) {
 				}
 			}
 		case *ast.DeclStmt, *ast.AssignStmt:
+			if a, ok := x.(*ast.AssignStmt); ok && tableMode && len(a.Lhs) == 1 && len(a.Rhs) == 1 {
+				if id, ok := a.Lhs[0].(*ast.Ident); ok && id.Name == "_" {
+					hasCall := false
+					ast.Inspect(a.Rhs[0], func(m ast.Node) bool {
+						if c, ok := m.(*ast.CallExpr); ok {
+							if tv, ok := g.info.Types[c.Fun]; !ok || !tv.IsType() {
+								hasCall = true
+							}
+						}
+						return true
+					})
+					if hasCall {
+						g.die(a, "a call whose result is discarded (`_ = f(…)`): either dead code or a hidden effect — not modelled")
+					}
+				}
+			}
 			if tableMode {
 				var ids []*ast.Ident
 				if d, ok := x.(*ast.DeclStmt); ok {
@@ -1309,7 +1390,28 @@ func (g *gen) precheck(name string, fd *ast.FuncDecl, tableMode bool) {
 					}
 				}
 			}
+		case *ast.BinaryExpr:
+			if (x.Op == token.SHL || x.Op == token.SHR) && g.constInt(x.Y) == nil {
+				// a negative shift count panics at run time
+				if bt, ok := g.typeOf(x.Y).Underlying().(*types.Basic); !ok || bt.Info()&types.IsUnsigned == 0 {
+					g.die(x, "shift by a signed non-constant count is not modelled")
+				}
+			}
 		case *ast.CallExpr:
+			if tableMode {
+				// a pointer-typed variable handed on (the in-out idiom) only in a call that is a statement of its own
+				if _, stmtLevel := parent[x].(*ast.ExprStmt); !stmtLevel {
+					for _, a := range x.Args {
+						if id, ok := stripParens(a).(*ast.Ident); ok {
+							if o, ok := g.info.Uses[id].(*types.Var); ok && params[o] {
+								if _, isPtr := o.Type().Underlying().(*types.Pointer); isPtr {
+									g.die(x, "a pointer parameter is passed to a call whose result is used — not modelled")
+								}
+							}
+						}
+					}
+				}
+			}
 			if id, ok := x.Fun.(*ast.Ident); ok && id.Name == "make" {
 				if len(x.Args) >= 2 {
 					if n := g.constInt(x.Args[1]); n == nil || *n != 0 {
@@ -1573,6 +1675,10 @@ func main() {
 			if !onlyUnderVerifTag(filepath.Join(dir, n)) {
 				otherFiles = append(otherFiles, n+":in neither the ordinary nor the verif build")
 				continue
+			}
+			if data, err := os.ReadFile(filepath.Join(dir, n)); err == nil {
+				sum := sha256.Sum256(data)
+				hookSha = append(hookSha, fmt.Sprintf("%s:%x", n, sum[:8]))
 			}
 			// a hooks file: its declarations (it may only ADD exported accessors named Verif…)
 			hf, err := parser.ParseFile(token.NewFileSet(), filepath.Join(dir, n), nil, 0)
@@ -1847,7 +1953,7 @@ func main() {
 // (package-level) state is written, has its address taken, or has a method called on it, and each use of
 // package unsafe. Property C14 (results depend on arguments only) rests on these lists being what the
 // Lean side expects.
-var otherFiles, hookDecls []string // filled in main: files outside the ordinary build
+var otherFiles, hookDecls, hookSha []string // filled in main: files outside the ordinary build
 
 func stateFacts(fset *token.FileSet, files []*ast.File, info *types.Info, pkg *types.Package) []string {
 	var writes, calls, unsafes, vars []string
@@ -2271,6 +2377,43 @@ func stateFacts(fset *token.FileSet, files []*ast.File, info *types.Info, pkg *t
 			ptrEffects = append(ptrEffects, fd.Name.Name+":"+strings.Join(es, ","))
 		}
 	}
+	// functions that pre-size a buffer (`make([]T, 0, cap)`): a run-time capacity is a panic source (cap out of range) and the
+	// translation drops it — allowed only where a theorem pins the capacity (`Vector`: Props/C17b `cap_eq_lenVecNN`)
+	var presized []string
+	// every mention of package unsafe, whatever its syntactic position (call, parenthesised conversion, type alias, field type)
+	var unsafeAll []string
+	for _, f := range files {
+		for _, d := range f.Decls {
+			who := "decl"
+			if fd, ok := d.(*ast.FuncDecl); ok {
+				who = fd.Name.Name
+				if fd.Recv != nil {
+					rt := fd.Recv.List[0].Type
+					if st, ok := rt.(*ast.StarExpr); ok {
+						rt = st.X
+					}
+					if id, ok := rt.(*ast.Ident); ok {
+						who = id.Name + "." + who
+					}
+				}
+			}
+			ast.Inspect(d, func(n ast.Node) bool {
+				switch x := n.(type) {
+				case *ast.CallExpr:
+					if id, ok := x.Fun.(*ast.Ident); ok && id.Name == "make" && len(x.Args) == 3 {
+						presized = append(presized, who)
+					}
+				case *ast.SelectorExpr:
+					if id, ok := x.X.(*ast.Ident); ok {
+						if pn, ok := info.Uses[id].(*types.PkgName); ok && pn.Imported().Path() == "unsafe" {
+							unsafeAll = append(unsafeAll, who+":unsafe."+x.Sel.Name)
+						}
+					}
+				}
+				return true
+			})
+		}
+	}
 	// imports of the non-test, non-hook files (a new import is how environment, time, reflection, cgo … would come in)
 	impSet := map[string]bool{}
 	for _, f := range files {
@@ -2287,6 +2430,9 @@ func stateFacts(fset *token.FileSet, files []*ast.File, info *types.Info, pkg *t
 		imps = append(imps, k)
 	}
 	return []string{
+		"/-- functions containing a pre-sized buffer `make([]T, 0, cap)` (one entry per occurrence) -/\ndef pkg_presized : List String :=\n  " + lst(presized) + "\n",
+		"/-- every mention of package unsafe (function or `decl`:unsafe.X, one entry per occurrence) -/\ndef pkg_unsafe_all : List String :=\n  " + lst(unsafeAll) + "\n",
+		"/-- sha256 (first 16 hex digits) of each verification hooks file -/\ndef hook_sha : List String :=\n  " + lst(hookSha) + "\n",
 		"/-- import paths of the package's source files (alias=path when renamed) -/\ndef pkg_imports : List String :=\n  " + lst(imps) + "\n",
 		"/-- fields of the object type (name:type), in declaration order -/\ndef obj_fields : List String :=\n  " + lstRaw(ofields) + "\n",
 		"/-- methods of the object type with a pointer receiver (the only ones that can change the object) -/\ndef obj_ptr_methods : List String :=\n  " + lst(ptrm) + "\n",
